@@ -424,10 +424,17 @@ impl AsyncFleet {
                 }
                 Err(err) => {
                     let should_retry = is_retryable_error(&err);
+                    // Only an application-level reply proves the cached connection is
+                    // still usable. Any other failure (a broken pipe on a connection
+                    // that died while idle, a malformed reply that stopped the reader)
+                    // leaves a dead client behind, so drop it whether or not we retry.
+                    let connection_suspect = !matches!(err, RepeError::ServerError { .. });
                     last_error = Some(err);
 
-                    if should_retry {
+                    if connection_suspect {
                         invalidate_client(&state).await;
+                    }
+                    if should_retry {
                         if attempt + 1 < self.options.retry_policy.max_attempts {
                             tokio::time::sleep(self.options.retry_policy.delay).await;
                         }
@@ -473,10 +480,17 @@ impl AsyncFleet {
                 }
                 Err(err) => {
                     let should_retry = is_retryable_error(&err);
+                    // Only an application-level reply proves the cached connection is
+                    // still usable. Any other failure (a broken pipe on a connection
+                    // that died while idle, a malformed reply that stopped the reader)
+                    // leaves a dead client behind, so drop it whether or not we retry.
+                    let connection_suspect = !matches!(err, RepeError::ServerError { .. });
                     last_error = Some(err);
 
-                    if should_retry {
+                    if connection_suspect {
                         invalidate_client(&state).await;
+                    }
+                    if should_retry {
                         if attempt + 1 < self.options.retry_policy.max_attempts {
                             tokio::time::sleep(self.options.retry_policy.delay).await;
                         }
